@@ -6,7 +6,7 @@ from typing import Any, Dict, List, Optional, Set, Tuple
 
 from .. import heval, termrules as T, witness
 from ..report import AnalysisError, Ctx
-from ..values import NodeV, ObjV, Sym
+from ..values import NodeV, ObjV, RefV, Sym
 from . import oracles as O
 from .common import check_arguments_influence
 
@@ -282,19 +282,26 @@ def run(ctx: Ctx, env):
     # ---- (6) null on either side ----------------------------------------------------------------------------------------------
     for vcls in (ORM, CORE):
         for d in ("Eq", "NotEq"):
-            for p in H.eval_visit(vcls, "Compare", d) or []:
+            # evaluated for exactly the trees whose left operand is the null literal (a handler that never asks is still decided)
+            n_ret = 0
+            for p in H.eval_visit(vcls, "Compare", d, fields={"left": {"Null"}}) or []:
                 if p.outcome != "return":
+                    q = p.value.args[0].qual if isinstance(p.value, Sym) and p.value.op == "exc" and isinstance(p.value.args[0], RefV) else ""
+                    if q.startswith("builtins.") and q != "builtins.NotImplementedError":
+                        n_ret += 1
+                        ctx.fail("R6.null-on-the-left", f"{H.short(vcls)}|Compare[{d}]", f"`null {O.OPERATOR_KEYWORD[d]} x` ends in {q.split('.')[-1]} "
+                                 f"at {p.where} instead of a translation or a refusal", p.entry.get("where", ""), f"null {O.OPERATOR_KEYWORD[d]} a")
                     continue
-                node = p.entry["args"][1] if len(p.entry.get("args", [])) > 1 else None
-                left = node.fields.get("left") if isinstance(node, NodeV) else None
-                if isinstance(left, NodeV) and "Null" in left.kinds:
-                    t = T.norm(p.value)
-                    handled = left.kinds == {"Null"} or "is_" in repr(t) or "isnot" in repr(t) or "is_not" in repr(t)
-                    ctx.check(handled, "R6.null-on-the-left", f"{H.short(vcls)}|Compare[{d}]",
-                              f"`null {O.OPERATOR_KEYWORD[d]} x` is built as `{T.show(t, 120)}` with null() as the left operand: SQLAlchemy renders "
-                              f"`NULL {'=' if d == 'Eq' else '!='} x`, which is never true (only a null on the right becomes IS [NOT] NULL)",
-                              p.entry.get("where", ""), f"null {O.OPERATOR_KEYWORD[d]} a")
-                    break
+                n_ret += 1
+                t = T.norm(p.value)
+                swapped = t[0] == "call" and T.is_visit(t[1], "node.comparator") and len(t[2]) == 2 and \
+                    _mentions(t[2][1], "node.left") and not _mentions(t[2][0], "node.left")
+                handled = swapped or "is_" in repr(t) or "isnot" in repr(t) or "is_not" in repr(t)
+                ctx.check(handled, "R6.null-on-the-left", f"{H.short(vcls)}|Compare[{d}]",
+                          f"`null {O.OPERATOR_KEYWORD[d]} x` is built as `{T.show(t, 120)}` with null() as the left operand: SQLAlchemy renders "
+                          f"`NULL {'=' if d == 'Eq' else '!='} x`, which is never true (only a null on the right becomes IS [NOT] NULL)",
+                          p.entry.get("where", ""), f"null {O.OPERATOR_KEYWORD[d]} a")
+            ctx.floor(f"{H.short(vcls)} Compare[{d}] with null on the left: decided paths", n_ret, 1)
     ctx.assume("what the compiled statements return on SQLite and run-time equality of the three entry styles are not decided")
     ctx.trust("meaning table: operator.eq/ne/..., ColumnOperators.in_/contains/startswith/endswith(autoescape=), strpos 1-based, substr 1-based")
 
